@@ -85,7 +85,8 @@ class World(object):
         self.shape, self.dom, self.structural, self.vers = shape, dom, structural, vers
         self.alphabet = alphabet
         self.exc = {}
-        self.failed_reads = ()  # nodes whose read raised since the last operation that was not a read
+        self.failed_read = None  # node whose read raised in the directly preceding operation (part of the state:
+        # the read after a failed read is a transition of its own, whatever the node objects look like)
         self.calls = collections.Counter()
         self.cell = [0]
         self.real = collections.OrderedDict()
@@ -248,6 +249,8 @@ class World(object):
                         ops.append(("cell", n, v))
         if self.structural:
             ops.extend(self._structural_ops())
+        if self.alphabet is not None:
+            ops = [o for o in ops if o[0] in self.alphabet]
         return ops
 
     def anc_any(self):
@@ -307,6 +310,7 @@ class World(object):
         viol = []
         k = op[0]
         real = self.real
+        last_failed, self.failed_read = self.failed_read, None
         if k == "set":
             _, p, v = op
             real[p].value = v
@@ -320,7 +324,7 @@ class World(object):
             real[dep].value = self.pv[dep]
             self._touch(dep)
         elif k == "read":
-            viol = self._read(op[1], res)
+            viol = self._read(op[1], res, last_failed)
         elif k == "freeze":
             n = op[1]
             real[n].freeze()
@@ -387,7 +391,7 @@ class World(object):
             return n
         return m
 
-    def _read(self, n, res):
+    def _read(self, n, res, last_failed=None):
         viol = []
         before = collections.Counter(self.calls)
         may_before = set(self.may)
@@ -407,7 +411,12 @@ class World(object):
             res.observe((n, act, sorted(delta.items())))
             res.outcomes[("read-" + self.kind[n], "frozen" if n in self.frozen else ("recomputed" if delta else "cached"), act[0])] += 1
             if exp != act:
-                viol.append(("value:" + n, exp, act, "wrong-value" if act[0] == "val" else "exception:" + act[1]))
+                if act[0] == "val":
+                    # (a value handed out although the definition cannot be evaluated is a class of its own)
+                    mode = "wrong-value" if exp[0] == "val" else "value-instead-of-exception"
+                else:
+                    mode = "exception:" + act[1]
+                viol.append(("value:" + n, exp, act, mode))
             for f, d in delta.items():
                 if d > 1 and self.calls["raised:" + f] == before["raised:" + f]:
                     # (a function that raised is retried by every Fallback alternative listing it)
@@ -419,6 +428,16 @@ class World(object):
             # coverage facts
             st = self.real[n].stale
             res.facts["read:%s:%s" % (self.kind[n], "frozen" if n in self.frozen else "live")] += 1
+            if exp[0] == "exc":
+                # reads of nodes that cannot be evaluated: first / repeated without an operation in between /
+                # of a node above (below) one whose read has just failed
+                res.facts["read-fails:%s" % self.kind[n]] += 1
+                if n == last_failed:
+                    res.facts["read-fails-again:%s" % self.kind[n]] += 1
+            if last_failed is not None and last_failed in self.desc(n):
+                res.facts["read-above-failed:%s>%s:%s" % (self.kind[n], self.kind[last_failed], exp[0])] += 1
+        if exp[0] == "exc":
+            self.failed_read = n
         if exp[0] == "val" and act[0] == "val":
             self._after_read(n)
         return viol
@@ -433,6 +452,7 @@ class World(object):
             sorted((k, tuple(v)) for k, v in self.par.items()),
             sorted((k, repr(v)) for k, v in self.ver.items()),
             self.cell[0],
+            self.failed_read,
         )
         return h64((fingerprint(dict(self.real)), ref))
 
@@ -510,6 +530,52 @@ STRUCTURAL_SHAPES = collections.OrderedDict(
 )
 
 
+def fail_shapes():
+    """Nodes that cannot be evaluated below every kind of parent: (failing sub-graph) x (parent over the failing node f
+    and a parameter c) x (node on top of the parent).  The inputs of the failing sub-graph start at the failing value."""
+    subs = collections.OrderedDict(
+        [
+            ("X", [("P", 1), ("X", (0,))]),
+            ("B1", [("P", 1), ("X", (0,)), ("B", (1,))]),
+            ("B2", [("P", 1), ("P", 1), ("X", (0,)), ("X", (1,)), ("B", (2, 3))]),
+            ("B1v", [("P", 1), ("X", (0,)), ("B", (1,), "ValueError")]),  # continues on the function's exception only
+            ("B1r", [("P", 1), ("X", (0,)), ("B", (1,), "RuntimeError")]),  # lets the function's exception through
+        ]
+    )
+    parents = collections.OrderedDict(
+        [
+            ("F(f,c)", lambda f, c: ("F", (f, c))),
+            ("F(c,f)", lambda f, c: ("F", (c, f))),
+            ("T(f,c)", lambda f, c: ("T", (f, c))),
+            ("R(c,f)", lambda f, c: ("R", (c, f))),
+            ("A(f)", lambda f, c: ("A", f)),
+            ("B(f,c)", lambda f, c: ("B", (f, c))),
+            ("Bv(f,c)", lambda f, c: ("B", (f, c), "ValueError")),
+            ("Br(f,c)", lambda f, c: ("B", (f, c), "RuntimeError")),
+        ]
+    )
+    tops = collections.OrderedDict(
+        [
+            ("", None),
+            ("T(.,c)", lambda p, c: ("T", (p, c))),
+            ("F(.)", lambda p, c: ("F", (p,))),
+        ]
+    )
+    out = collections.OrderedDict()
+    for sn, sub in subs.items():
+        for pn, par in parents.items():
+            for tn, top in tops.items():
+                f, c = len(sub) - 1, len(sub)
+                shape = list(sub) + [("P", 0), par(f, c)]
+                if top is not None:
+                    shape.append(top(c + 1, c))
+                out["fail:%s/%s/%s" % (sn, pn, tn)] = tuple(shape)
+    return out
+
+
+FAIL_SHAPES = fail_shapes()
+RW = ("set", "read")
+
 # ---------------------------------------------------------------------------------------
 # jobs
 
@@ -584,6 +650,8 @@ def make_factory(spec):
     mode, name, shape, dom, depth, vers = spec
     if mode in ("closure", "bounded"):
         return lambda: World(shape, dom=dom, structural=False, vers=vers)
+    if mode == "rw":
+        return lambda: World(shape, dom=dom, structural=False, vers=vers, alphabet=RW)
     if mode == "structural":
         return lambda: World(shape, dom=dom, structural=True, vers=vers)
     if mode == "nexus":
